@@ -132,48 +132,117 @@ def key_order(ctx):
                 ctx.fail('C08.2', geo, enclosing_stmt(c), 'Geometry3d parameters %s receive values of the other axis' % bad)
             else:
                 ctx.ok('C08.2', geo, c, 'ranges are handed to Geometry3d axis by axis')
-    # the lookup tuple in the filler
+    # the lookup tuple in the filler, the inline number, the header store position - on polynomials
+    irregular_filler(ctx)
+    ctx.floor('C08.2', 6)
+    ctx.floor('C08.4', 2)
+
+
+IRR_ATOMS = {'plane_set_id': 'SET', 'blockshape[0]': 'BS0', 'blockshape[1]': 'BS1', 'blockshape[2]': 'BS2', 'i': 'i',
+             'geom.il_step': 'IL_STEP', 'geom.xl_step': 'XL_STEP', 'geom.min_il': 'MIN_IL', 'geom.min_xl': 'MIN_XL',
+             'len(geom.xlines)': 'WXL', 'len(geom.ilines)': 'WIL'}
+
+
+def _membership(t):
+    """the construct that decides whether a grid position carries a trace: (key expression, guarding If, id name)
+    Accepted idioms: `if key in <x>.traces_ref:`  and  `v = <x>.traces_ref.get(key)` ... `if v is not None:`."""
+    for n in ast.walk(t.node):
+        if isinstance(n, ast.If) and isinstance(n.test, ast.Compare) and len(n.test.ops) == 1:
+            op = n.test.ops[0]
+            if isinstance(op, ast.In) and 'traces_ref' in U(n.test.comparators[0]):
+                return n.test.left, n, None
+            if isinstance(op, ast.IsNot) and U(n.test.comparators[0]) == 'None' and isinstance(n.test.left, ast.Name):
+                v = n.test.left.id
+                for a in ast.walk(t.node):
+                    if isinstance(a, ast.Assign) and U(a.targets[0]) == v and isinstance(a.value, ast.Call) and \
+                            isinstance(a.value.func, ast.Attribute) and a.value.func.attr == 'get' and \
+                            'traces_ref' in U(a.value.func.value) and len(a.value.args) == 1:
+                        return a.value.args[0], n, v
+    return None, None, None
+
+
+def irregular_filler(ctx):
+    from ..capture import Frame
+    from ..algebra import A as At
+    P, G = ctx.P, ctx.G
     pl, prods = PR.producers(P, G)
+    found = 0
     for pr in prods:
         fl, bufs = fillers_of(P, G, pr)
         for (t, bp, e) in fl:
             if 'traces_ref' not in U(t.node):
                 continue
-            for a in ast.walk(t.node):
-                if isinstance(a, ast.Assign) and isinstance(a.value, ast.Tuple) and len(a.value.elts) == 2 and \
-                        any(isinstance(n, ast.Compare) and U(n.left) == U(a.targets[0]) and isinstance(n.ops[0], ast.In)
-                            for n in ast.walk(t.node)):
-                    e0, e1 = a.value.elts
-                    # xl component: loop variable over geom.xlines
-                    ax1 = axis_of_text(U(e1))
-                    if ax1 is None and isinstance(e1, ast.Name):
-                        for lp in ast.walk(t.node):
-                            if isinstance(lp, ast.For) and e1.id in U(lp.target):
-                                ax1 = axis_of_text(U(lp.iter))
-                    ax0 = {axis_of_text(U(n)) for n in ast.walk(e0) if isinstance(n, ast.Attribute)} - {None}
-                    if ax0 == {'IL'} and ax1 == 'XL':
-                        ctx.ok('C08.2', t, a, 'lookup tuple = (inline number, crossline number)')
+            found += 1
+            key, guard, idname = _membership(t)
+            if key is None:
+                raise AnalysisError('%s: the test whether a grid position carries a trace was not recognised' % t.qualname)
+            # resolve a key held in a local
+            if isinstance(key, ast.Name):
+                ds = [a for a in ast.walk(t.node) if isinstance(a, ast.Assign) and U(a.targets[0]) == key.id]
+                if len(ds) == 1:
+                    key = ds[0].value
+            if not (isinstance(key, ast.Tuple) and len(key.elts) == 2):
+                raise AnalysisError('%s: lookup key `%s` is not a pair' % (t.qualname, U(key)[:40]))
+            # loop variables: ordinal / number of the crossline loop
+            xl_ord = xl_num = None
+            for lp in ast.walk(t.node):
+                if isinstance(lp, ast.For) and isinstance(lp.iter, ast.Call) and U(lp.iter.func) == 'enumerate' and \
+                        'xlines' in U(lp.iter.args[0]) and isinstance(lp.target, ast.Tuple):
+                    xl_ord, xl_num = U(lp.target.elts[0]), U(lp.target.elts[1])
+                elif isinstance(lp, ast.For) and 'geom.xlines' in U(lp.iter) and isinstance(lp.target, ast.Name):
+                    xl_num = lp.target.id
+            atoms = dict(IRR_ATOMS)
+            if xl_ord:
+                atoms[xl_ord] = 'XL_ORD'
+            if xl_num:
+                atoms[xl_num] = 'XL_NUM'
+            fr = Frame(t, atoms)
+            il_ord = At('SET') * At('BS0') + At('i')
+            k0, k1 = fr.ev(key.elts[0]), fr.ev(key.elts[1])
+            if k0 is None or k1 is None:
+                raise AnalysisError('%s: lookup key `%s` does not normalise' % (t.qualname, U(key)[:60]))
+            # C08.2 key order
+            if 'XL_NUM' in k0.atoms() or ('IL_STEP' in k1.atoms() or 'MIN_IL' in k1.atoms()):
+                ctx.fail('C08.2', t, enclosing_stmt(key), 'lookup key components are (crossline, inline); the dictionary built in '
+                         'infer_geometry is keyed (inline number, crossline number)', line=key.lineno)
+            else:
+                ctx.ok('C08.2', t, key, 'lookup key = (inline number, crossline number)')
+            # C08.4 inline number = ordinal * own step + own origin
+            want = il_ord * At('IL_STEP') + At('MIN_IL')
+            if k0 == want:
+                ctx.ok('C08.4', t, key.elts[0], 'inline number = (set*bs0 + i) * il_step + min_il')
+            else:
+                ctx.fail('C08.4', t, enclosing_stmt(key), 'inline number of the lookup key is %r, not (plane_set_id*blockshape[0] + i) * '
+                         'geom.il_step + geom.min_il: traces are placed on the wrong inline of the inferred grid' % (k0,), line=key.lineno)
+            if k1 == At('XL_NUM') or k1 == At('XL_ORD') * At('XL_STEP') + At('MIN_XL'):
+                ctx.ok('C08.4', t, key.elts[1], 'crossline number of the grid column being filled')
+            else:
+                ctx.fail('C08.4', t, enclosing_stmt(key), 'crossline component of the lookup key is %r, not the crossline number of the '
+                         'column being filled' % (k1,), line=key.lineno)
+            # header store position: every subscript store into a header array inside the guard
+            n_store = 0
+            for st in ast.walk(guard):
+                if isinstance(st, ast.Assign) and isinstance(st.targets[0], ast.Subscript) and \
+                        U(st.targets[0].value) not in (bp,) and isinstance(st.targets[0].slice, (ast.Name, ast.BinOp)):
+                    pos = fr.ev(st.targets[0].slice)
+                    if pos is None:
+                        raise AnalysisError('%s: header store position `%s` does not normalise' % (t.qualname, U(st.targets[0].slice)))
+                    n_store += 1
+                    want_pos = At('XL_ORD') + il_ord * At('WXL')
+                    if pos == want_pos:
+                        ctx.ok('C08.4', t, st, 'header position = crossline ordinal + inline ordinal * grid width')
                     else:
-                        ctx.fail('C08.2', t, a, 'lookup tuple components are (%s, %s), the dictionary is keyed (inline, crossline)' % (
-                            '/'.join(sorted(ax0)) or '?', ax1))
-                    # C08.4: ordinal * step + origin of the same axis
-                    p = e0
-                    ok = isinstance(p, ast.BinOp) and isinstance(p.op, ast.Add) and 'il_step' in U(p.left) and \
-                        U(p.right) == 'geom.min_il' and 'plane_set_id * blockshape[0] + i' in U(p.left)
-                    if ok:
-                        ctx.ok('C08.4', t, a, 'inline number = (set*bs0 + i) * il_step + min_il')
-                    else:
-                        ctx.fail('C08.4', t, a, 'inline number `%s` is not (plane_set_id*blockshape[0] + i) * geom.il_step + geom.min_il' % U(e0)[:70])
-                    # header store position in the zero-filled grid arrays
-                    for b in ast.walk(t.node):
-                        if isinstance(b, ast.Assign) and U(b.targets[0]) == 't_store':
-                            txt = U(b.value).replace(' ', '')
-                            if txt in ('xl_id+(plane_set_id*blockshape[0]+i)*len(geom.xlines)',):
-                                ctx.ok('C08.4', t, b, 'header position = xl ordinal + inline ordinal * grid width')
-                            else:
-                                ctx.fail('C08.4', t, b, 'header position `%s` is not xl_id + (inline ordinal) * len(geom.xlines)' % U(b.value))
-    ctx.floor('C08.2', 6)
-    ctx.floor('C08.4', 2)
+                        hint = ''
+                        if 'BS1' in pos.atoms():
+                            hint = ' (it uses the crossline component of the blockshape for the inline group size)'
+                        elif 'WIL' in pos.atoms():
+                            hint = ' (it uses the inline count as the row width)'
+                        ctx.fail('C08.4', t, st, 'header store position is %r, not xl_ordinal + (plane_set_id*blockshape[0] + i) * '
+                                 'len(geom.xlines)%s: headers of the inferred grid land on the wrong traces' % (pos, hint))
+            if n_store < 1:
+                raise AnalysisError('%s: no header store found under the membership test' % t.qualname)
+    if found < 1:
+        raise AnalysisError('irregular plane filler not found')
 
 
 def zero_fill(ctx):
@@ -206,12 +275,12 @@ def zero_fill(ctx):
                          'the plane-set loop: holes would carry samples of an earlier set')
             stores = [s for s in ast.walk(t.node) if isinstance(s, ast.Assign) and isinstance(s.targets[0], ast.Subscript)
                       and U(s.targets[0].value) in (bp, 'array')]
+            _k, guard_if, _v = _membership(t)
             for s in stores:
                 guarded = False
                 p = parent(s)
                 while p is not None and p is not t.node:
-                    if isinstance(p, ast.If) and isinstance(p.test, ast.Compare) and isinstance(p.test.ops[0], ast.In) and \
-                            'traces_ref' in U(p.test.comparators[0]):
+                    if p is guard_if and any(s is x for b_ in p.body for x in ast.walk(b_)):
                         guarded = True
                     p = parent(p)
                 if guarded:
@@ -258,15 +327,42 @@ def mask_plumbing(ctx):
         ctx.fail('C08.5', gm, gm.name, 'the mask is not `frombuffer(int32) != 0`')
     gt = P.func(RF.READER + '.get_trace')
     fm = RF.factmap(P, gt, '3d')
-    maps = [a for a in ast.walk(gt.node) if isinstance(a, ast.Assign) and U(a.targets[0]) == 'index' and 'self.mask' in U(a.value)]
+    # the trace ordinal (ORDINAL frame: i-th stored trace) becomes a grid position (GRID frame: il*n_xl + xl) by
+    # selecting the i-th populated entry of the mask.  Accepted: np.arange(n)[<mask>][index], np.flatnonzero(<mask>)[index],
+    # np.nonzero / np.where(<mask>)[0][index]  (optionally inside int()).  A trace ordinal that subscripts the mask
+    # itself is a frame error (the mask is indexed by grid position).
+    maps = [a for a in ast.walk(gt.node) if isinstance(a, (ast.Assign, ast.AugAssign)) and
+            U(a.targets[0] if isinstance(a, ast.Assign) else a.target) == 'index' and 'self.mask' in U(a.value)]
     if len(maps) == 1:
         facts = fm.facts_at(maps[0]) or frozenset()
         if ('F', 'self.structured') in facts and ('F', 'override_unstructured_mapping') in facts:
             ctx.ok('C08.5', gt, maps[0], 'ordinal -> grid position map applied for unstructured files unless overridden')
         else:
             ctx.fail('C08.5', gt, maps[0], 'the ordinal -> grid map is not guarded by (not structured and not override)')
-        if '[self.mask != 0][index]' in U(maps[0].value).replace('(', '').replace(')', '') or 'self.mask != 0' in U(maps[0].value):
-            ctx.ok('C08.5', gt, maps[0].value, 'the i-th populated grid position')
+        v = maps[0].value
+        while isinstance(v, ast.Call) and U(v.func) == 'int' and v.args:
+            v = v.args[0]
+        raw_mask_sub = [x for x in ast.walk(maps[0].value) if isinstance(x, ast.Subscript) and U(x.value) in ('self.mask', '~self.mask')
+                        and any(isinstance(y, ast.Name) and y.id == 'index' for y in ast.walk(x.slice))]
+        selected = False
+        if isinstance(maps[0], ast.Assign) and isinstance(v, ast.Subscript) and U(v.slice) == 'index':
+            inner = v.value
+            if isinstance(inner, ast.Subscript) and U(inner.slice) == '0' and isinstance(inner.value, ast.Call) and \
+                    U(inner.value.func).split('.')[-1] in ('nonzero', 'where') and 'self.mask' in U(inner.value):
+                selected = True
+            elif isinstance(inner, ast.Call) and U(inner.func).split('.')[-1] == 'flatnonzero' and 'self.mask' in U(inner):
+                selected = True
+            elif isinstance(inner, ast.Subscript) and 'self.mask' in U(inner.slice) and isinstance(inner.value, ast.Call) and \
+                    U(inner.value.func).split('.')[-1] == 'arange':
+                selected = True
+        if raw_mask_sub:
+            ctx.fail('C08.5', gt, maps[0], 'the trace ordinal `index` subscripts the population mask itself (`%s`): the mask is '
+                     'indexed by grid position, the ordinal counts stored traces - with more than one hole the i-th trace is '
+                     'mapped to a hole or to a later trace' % U(raw_mask_sub[0])[:50])
+        elif selected:
+            ctx.ok('C08.5', gt, maps[0].value, 'the i-th populated grid position (selection by the mask, then subscript by the ordinal)')
+        else:
+            raise AnalysisError('get_trace: ordinal -> grid map `%s` follows no recognised idiom' % U(maps[0].value)[:70])
     else:
         ctx.fail('C08.5', gt, gt.name, 'get_trace no longer maps trace ordinals to grid positions for unstructured files')
     # override passed exactly by the diagonal readers
